@@ -206,4 +206,438 @@ theorem LBlock.execN_env : ∀ (fuel n : Nat) (ρ : Env) (b : LBlock) (r : Out),
           simp only [this, e1]
 end
 
+/-! ### static well-formedness of every flow id produced -/
+
+theorem wf_append_single {l : List Pt} {p : Pt} (hl : ∀ q ∈ l, WfPt q) (hp : WfPt p) : ∀ q ∈ l ++ [p], WfPt q := by
+  intro q hq
+  rcases List.mem_append.mp hq with h | h
+  · exact hl q h
+  · simp only [List.mem_cons, List.not_mem_nil, or_false] at h; subst h; exact hp
+
+theorem wf_append {l1 l2 : List Pt} (h1 : ∀ q ∈ l1, WfPt q) (h2 : ∀ q ∈ l2, WfPt q) : ∀ q ∈ l1 ++ l2, WfPt q := by
+  intro q hq
+  rcases List.mem_append.mp hq with h | h
+  · exact h1 q h
+  · exact h2 q h
+
+mutual
+theorem LStmt.aexec_wf (nv : Nat) (d : Nat → Atom) : ∀ (s : LStmt) (cur : Pt), WfPt cur →
+    WfPt (s.aexec nv d cur).out ∧ ∀ p ∈ (s.aexec nv d cur).brks, WfPt p
+  | .assign x l, cur, h => by simp only [LStmt.aexec]; exact ⟨assignNode_wf h, by simp⟩
+  | .probe id x, cur, h => by simp only [LStmt.aexec]; exact ⟨passNode_wf h, by simp⟩
+  | .ite c thn rest, cur, h => by
+    simp only [LStmt.aexec]
+    have he := edges_wf nv c cur h
+    have ht := LBlock.aexec_wf nv d thn _ (finishLabel_wf he.1 h)
+    have hr := LElse.aexec_wf nv d rest cur _ h he.2
+    refine ⟨finishLabel_wf ?_ h, wf_append ht.2 hr.2⟩
+    intro p hp
+    simp only [List.mem_cons] at hp
+    rcases hp with rfl | hp
+    · exact ht.1
+    · exact hr.1 p hp
+  | .whileDo c body, cur, h => by simp only [LStmt.aexec]; exact ⟨h, by simp⟩
+  | .whileTrue body, cur, h => by
+    simp only [LStmt.aexec]
+    have hb := LBlock.aexec_wf nv d body cur h
+    exact ⟨finishLabel_wf (wf_append_single hb.2 hb.1) h, by simp⟩
+  | .repeatUntil body c, cur, h => by
+    simp only [LStmt.aexec]
+    have hb := LBlock.aexec_wf nv d body cur h
+    have he := edges_wf nv c _ hb.1
+    exact ⟨finishLabel_wf (wf_append hb.2 he.1) hb.1, by simp⟩
+  | .forNum a b body, cur, h => by
+    simp only [LStmt.aexec]
+    have hb := LBlock.aexec_wf nv d body (.node (passNode nv cur)) (passNode_wf h)
+    split
+    · exact ⟨finishLabel_wf (wf_append_single hb.2 hb.1) h, by simp⟩
+    · exact ⟨h, by simp⟩
+  | .forIn n body, cur, h => by simp only [LStmt.aexec]; exact ⟨h, by simp⟩
+  | .breakIf c, cur, h => by
+    simp only [LStmt.aexec]
+    have he := edges_wf nv c cur h
+    refine ⟨finishLabel_wf he.2 h, ?_⟩
+    intro p hp
+    simp only [List.mem_cons, List.not_mem_nil, or_false] at hp
+    subst hp
+    exact passNode_wf (finishLabel_wf he.1 h)
+theorem LElse.aexec_wf (nv : Nat) (d : Nat → Atom) : ∀ (e : LElse) (cur : Pt) (ins : List Pt), WfPt cur →
+    (∀ p ∈ ins, WfPt p) →
+    (∀ p ∈ (e.aexec nv d cur ins).1, WfPt p) ∧ ∀ p ∈ (e.aexec nv d cur ins).2.2, WfPt p
+  | .none, cur, ins, h, hi => by
+    simp only [LElse.aexec, List.mem_cons, List.not_mem_nil, or_false, forall_eq]
+    exact ⟨finishLabel_wf hi h, by simp⟩
+  | .els b, cur, ins, h, hi => by
+    simp only [LElse.aexec, List.mem_cons, List.not_mem_nil, or_false, forall_eq]
+    exact LBlock.aexec_wf nv d b _ (finishLabel_wf hi h)
+  | .elif c thn rest, cur, ins, h, hi => by
+    simp only [LElse.aexec]
+    have hpre := finishLabel_wf hi h
+    have he := edges_wf nv c _ hpre
+    have ht := LBlock.aexec_wf nv d thn _ (finishLabel_wf he.1 h)
+    have hr := LElse.aexec_wf nv d rest cur _ h he.2
+    refine ⟨?_, wf_append ht.2 hr.2⟩
+    intro p hp
+    simp only [List.mem_cons] at hp
+    rcases hp with rfl | hp
+    · exact ht.1
+    · exact hr.1 p hp
+theorem LBlock.aexec_wf (nv : Nat) (d : Nat → Atom) : ∀ (b : LBlock) (cur : Pt), WfPt cur →
+    WfPt (b.aexec nv d cur).out ∧ ∀ p ∈ (b.aexec nv d cur).brks, WfPt p
+  | .nil, cur, h => by simp only [LBlock.aexec]; exact ⟨h, by simp⟩
+  | .cons s rest, cur, h => by
+    simp only [LBlock.aexec]
+    have h1 := LStmt.aexec_wf nv d s cur h
+    have h2 := LBlock.aexec_wf nv d rest _ h1.1
+    exact ⟨h2.1, wf_append h1.2 h2.2⟩
+end
+
+/-! ### dynamic soundness, by induction on the fuel -/
+
+/-- after a statement: the flow id reached is sound — the enclosing loop's break list when a `break` propagates -/
+def Good (ρ : Env) (out : Pt) (brks : List Pt) : Bool → Prop
+  | true => ∃ p ∈ brks, SoundPt ρ p
+  | false => SoundPt ρ out
+
+def GoodE (ρ : Env) (outs : List Pt) (brks : List Pt) : Bool → Prop
+  | true => ∃ p ∈ brks, SoundPt ρ p
+  | false => ∃ p ∈ outs, SoundPt ρ p
+
+theorem ObsOK.append_same {o1 o2 : List Obs} {a : List AObs} (h1 : ObsOK o1 a) (h2 : ObsOK o2 a) :
+    ObsOK (o1 ++ o2) a := by
+  intro o ho
+  rcases List.mem_append.mp ho with ho | ho
+  · exact h1 o ho
+  · exact h2 o ho
+
+theorem Good.brk_left {ρ : Env} {out : Pt} {b1 b2 : List Pt} {out' : Pt} (h : Good ρ out b1 true) :
+    Good ρ out' (b1 ++ b2) true := by
+  obtain ⟨p, hp, hs⟩ := h
+  exact ⟨p, List.mem_append.mpr (.inl hp), hs⟩
+
+theorem Good.brk_right {ρ : Env} {out : Pt} {b1 b2 : List Pt} {out' : Pt} (h : Good ρ out b2 true) :
+    Good ρ out' (b1 ++ b2) true := by
+  obtain ⟨p, hp, hs⟩ := h
+  exact ⟨p, List.mem_append.mpr (.inr hp), hs⟩
+
+theorem good_right {ρ : Env} {o2 : Pt} {b1 b2 : List Pt} {b : Bool} (h : Good ρ o2 b2 b) :
+    Good ρ o2 (b1 ++ b2) b := by
+  cases b
+  · exact h
+  · exact Good.brk_right (out := o2) h
+
+theorem good_ite_then {ρ : Env} {out : Pt} {outs : List Pt} {cur : Pt} {b1 b2 : List Pt} {b : Bool}
+    (h : Good ρ out b1 b) : Good ρ (finishLabel (out :: outs) cur) (b1 ++ b2) b := by
+  cases b
+  · exact finishLabel_sound ⟨out, by simp, h⟩
+  · exact Good.brk_left (out := out) h
+
+theorem good_ite_else {ρ : Env} {o : Pt} {outs : List Pt} {cur : Pt} {b1 b2 : List Pt} {b : Bool}
+    (h : GoodE ρ outs b2 b) : Good ρ (finishLabel (o :: outs) cur) (b1 ++ b2) b := by
+  cases b
+  · obtain ⟨p, hp, hs⟩ := h; exact finishLabel_sound ⟨p, by simp [hp], hs⟩
+  · obtain ⟨p, hp, hs⟩ := h; exact ⟨p, List.mem_append.mpr (.inr hp), hs⟩
+
+theorem goodE_then {ρ : Env} {out : Pt} {outs : List Pt} {b1 b2 : List Pt} {b : Bool}
+    (h : Good ρ out b1 b) : GoodE ρ (out :: outs) (b1 ++ b2) b := by
+  cases b
+  · exact ⟨out, by simp, h⟩
+  · obtain ⟨p, hp, hs⟩ := h; exact ⟨p, List.mem_append.mpr (.inl hp), hs⟩
+
+theorem goodE_else {ρ : Env} {o : Pt} {outs : List Pt} {b1 b2 : List Pt} {b : Bool}
+    (h : GoodE ρ outs b2 b) : GoodE ρ (o :: outs) (b1 ++ b2) b := by
+  cases b
+  · obtain ⟨p, hp, hs⟩ := h; exact ⟨p, by simp [hp], hs⟩
+  · obtain ⟨p, hp, hs⟩ := h; exact ⟨p, List.mem_append.mpr (.inr hp), hs⟩
+
+mutual
+theorem LStmt.sound (nv : Nat) (d : Nat → Atom) : ∀ (fuel : Nat) (s : LStmt) (cur : Pt) (ρ : Env) (r : Out),
+    s.inert = true → ρ.length = nv → WfPt cur → SoundPt ρ cur → LStmt.exec fuel ρ s = some r →
+    Good r.env (s.aexec nv d cur).out (s.aexec nv d cur).brks r.broke ∧ r.env.length = nv ∧
+      ObsOK r.obs (s.aexec nv d cur).obs
+  | 0, _, _, _, _, _, _, _, _, h => by simp [LStmt.exec] at h
+  | fuel + 1, .assign x l, cur, ρ, r, _, hl, hw, hs, h => by
+    simp only [LStmt.exec, Option.some.injEq] at h
+    subst h
+    simp only [LStmt.aexec]
+    exact ⟨assignNode_sound hl hw hs, by simpa using hl, ObsOK.nil⟩
+  | fuel + 1, .probe id x, cur, ρ, r, _, hl, hw, hs, h => by
+    simp only [LStmt.exec, Option.some.injEq] at h
+    subst h
+    simp only [LStmt.aexec]
+    refine ⟨passNode_sound hl hs, hl, ?_⟩
+    intro o ho
+    simp only [List.mem_cons, List.not_mem_nil, or_false] at ho
+    subst ho
+    exact ⟨cur.typeOf x, by simp, Res.has_intoType (res_has hs x .normal)⟩
+  | fuel + 1, .breakIf c, cur, ρ, r, _, hl, hw, hs, h => by
+    simp only [LStmt.exec, Option.some.injEq] at h
+    subst h
+    simp only [LStmt.aexec]
+    have hes := edges_sound nv c cur ρ hl hs
+    refine ⟨?_, hl, ObsOK.nil⟩
+    cases hc : c.eval ρ
+    · exact finishLabel_sound (hes.2 hc)
+    · exact ⟨Pt.node (passNode nv (finishLabel (c.edges nv cur).1 cur)), by simp,
+        passNode_sound hl (finishLabel_sound (d := cur) (hes.1 hc))⟩
+  | fuel + 1, .ite c thn rest, cur, ρ, r, hi, hl, hw, hs, h => by
+    simp only [LStmt.inert, Bool.and_eq_true] at hi
+    simp only [LStmt.exec] at h
+    simp only [LStmt.aexec]
+    have hew := edges_wf nv c cur hw
+    have hes := edges_sound nv c cur ρ hl hs
+    cases hc : c.eval ρ
+    · simp only [hc, Bool.false_eq_true, ↓reduceIte] at h
+      obtain ⟨hg, hlen, hobs⟩ := LElse.sound nv d fuel rest cur _ ρ r hi.2 hl hw hew.2 (hes.2 hc) h
+      exact ⟨good_ite_else hg, hlen, hobs.right⟩
+    · simp only [hc, ↓reduceIte] at h
+      obtain ⟨hg, hlen, hobs⟩ := LBlock.sound nv d fuel thn _ ρ r hi.1 hl (finishLabel_wf hew.1 hw)
+        (finishLabel_sound (d := cur) (hes.1 hc)) h
+      exact ⟨good_ite_then hg, hlen, hobs.left⟩
+  | fuel + 1, .whileDo c body, cur, ρ, r, hi, hl, hw, hs, h => by
+    have hna : body.noAssign = true := by simpa [LStmt.inert] using hi
+    have henv := LStmt.exec_env (fuel + 1) ρ (.whileDo c body) r (by simpa [LStmt.noAssign] using hna) h
+    simp only [LStmt.exec] at h
+    simp only [LStmt.aexec]
+    have hew := edges_wf nv c cur hw
+    have hes := edges_sound nv c cur ρ hl hs
+    refine ⟨?_, by rw [henv]; exact hl, ?_⟩
+    · have hb : r.broke = false := by
+        split at h
+        · cases h1 : LBlock.exec fuel ρ body with
+          | none => simp [h1] at h
+          | some r1 =>
+            simp only [h1] at h
+            split at h
+            · simp only [Option.some.injEq] at h; subst h; rfl
+            · cases h2 : LStmt.exec fuel r1.env (.whileDo c body) with
+              | none => simp [h2] at h
+              | some r2 => simp only [h2, Option.some.injEq] at h; subst h; rfl
+        · simp only [Option.some.injEq] at h; subst h; rfl
+      rw [hb, henv]; exact hs
+    · split at h
+      · rename_i hc
+        cases h1 : LBlock.exec fuel ρ body with
+        | none => simp [h1] at h
+        | some r1 =>
+          have e1 := LBlock.exec_env fuel ρ body r1 hna h1
+          obtain ⟨_, _, ho1⟩ := LBlock.sound nv d fuel body _ ρ r1 (LBlock.noAssign_inert body hna) hl
+            (finishLabel_wf hew.1 hw) (finishLabel_sound (d := cur) (hes.1 hc)) h1
+          simp only [h1] at h
+          split at h
+          · simp only [Option.some.injEq] at h; subst h; exact ho1
+          · cases h2 : LStmt.exec fuel r1.env (.whileDo c body) with
+            | none => simp [h2] at h
+            | some r2 =>
+              simp only [h2, Option.some.injEq] at h
+              subst h
+              obtain ⟨_, _, ho2⟩ := LStmt.sound nv d fuel (.whileDo c body) cur r1.env r2 hi (by rw [e1]; exact hl) hw
+                (by rw [e1]; exact hs) h2
+              simp only [LStmt.aexec] at ho2
+              exact ho1.append_same ho2
+      · simp only [Option.some.injEq] at h; subst h; exact ObsOK.nil
+  | fuel + 1, .whileTrue body, cur, ρ, r, hi, hl, hw, hs, h => by
+    have hna : body.noAssign = true := by simpa [LStmt.inert] using hi
+    have henv := LStmt.exec_env (fuel + 1) ρ (.whileTrue body) r (by simpa [LStmt.noAssign] using hna) h
+    simp only [LStmt.exec] at h
+    cases h1 : LBlock.exec fuel ρ body with
+    | none => simp [h1] at h
+    | some r1 =>
+      have e1 := LBlock.exec_env fuel ρ body r1 hna h1
+      obtain ⟨hg1, _, ho1⟩ := LBlock.sound nv d fuel body cur ρ r1 (LBlock.noAssign_inert body hna) hl hw hs h1
+      simp only [h1] at h
+      split at h
+      · rename_i hbr
+        simp only [Option.some.injEq] at h
+        subst h
+        simp only [LStmt.aexec]
+        rw [hbr] at hg1
+        obtain ⟨p, hp, hps⟩ := hg1
+        exact ⟨finishLabel_sound ⟨p, List.mem_append.mpr (.inl hp), hps⟩, by rw [e1]; exact hl, ho1⟩
+      · cases h2 : LStmt.exec fuel r1.env (.whileTrue body) with
+        | none => simp [h2] at h
+        | some r2 =>
+          simp only [h2, Option.some.injEq] at h
+          subst h
+          obtain ⟨hg2, hl2, ho2⟩ := LStmt.sound nv d fuel (.whileTrue body) cur r1.env r2 hi (by rw [e1]; exact hl) hw
+            (by rw [e1]; exact hs) h2
+          simp only [LStmt.aexec] at hg2 ho2 ⊢
+          refine ⟨?_, hl2, ho1.append_same ho2⟩
+          cases hb2 : r2.broke
+          · rw [hb2] at hg2; exact hg2
+          · rw [hb2] at hg2; obtain ⟨p, hp, _⟩ := hg2; simp at hp
+  | fuel + 1, .repeatUntil body c, cur, ρ, r, hi, hl, hw, hs, h => by
+    have hna : body.noAssign = true := by simpa [LStmt.inert] using hi
+    simp only [LStmt.exec] at h
+    cases h1 : LBlock.exec fuel ρ body with
+    | none => simp [h1] at h
+    | some r1 =>
+      have e1 := LBlock.exec_env fuel ρ body r1 hna h1
+      obtain ⟨hg1, hl1, ho1⟩ := LBlock.sound nv d fuel body cur ρ r1 (LBlock.noAssign_inert body hna) hl hw hs h1
+      simp only [h1] at h
+      split at h
+      · rename_i hbr
+        simp only [Option.some.injEq] at h
+        subst h
+        simp only [LStmt.aexec]
+        rw [hbr] at hg1
+        obtain ⟨p, hp, hps⟩ := hg1
+        exact ⟨finishLabel_sound ⟨p, List.mem_append.mpr (.inl hp), hps⟩, hl1, ho1⟩
+      · rename_i hbr
+        have hbf : r1.broke = false := by simpa using hbr
+        rw [hbf] at hg1
+        have hes := edges_sound nv c (body.aexec nv d cur).out r1.env hl1 hg1
+        split at h
+        · rename_i hc
+          simp only [Option.some.injEq] at h
+          subst h
+          simp only [LStmt.aexec]
+          obtain ⟨p, hp, hps⟩ := hes.1 hc
+          exact ⟨finishLabel_sound ⟨p, List.mem_append.mpr (.inr hp), hps⟩, hl1, ho1⟩
+        · cases h2 : LStmt.exec fuel r1.env (.repeatUntil body c) with
+          | none => simp [h2] at h
+          | some r2 =>
+            simp only [h2, Option.some.injEq] at h
+            subst h
+            obtain ⟨hg2, hl2, ho2⟩ := LStmt.sound nv d fuel (.repeatUntil body c) cur r1.env r2 hi hl1 hw
+              (by rw [e1]; exact hs) h2
+            simp only [LStmt.aexec] at hg2 ho2 ⊢
+            refine ⟨?_, hl2, ho1.append_same ho2⟩
+            cases hb2 : r2.broke
+            · rw [hb2] at hg2; exact hg2
+            · rw [hb2] at hg2; obtain ⟨p, hp, _⟩ := hg2; simp at hp
+  | fuel + 1, .forNum a b body, cur, ρ, r, hi, hl, hw, hs, h => by
+    have hna : body.noAssign = true := by simpa [LStmt.inert] using hi
+    simp only [LStmt.exec] at h
+    obtain ⟨henv, hbr, hobs, hlast⟩ := LBlock.soundN nv d fuel (b + 1 - a) body (.node (passNode nv cur)) ρ r hna hl
+      (passNode_wf hw) (passNode_sound hl hs) h
+    simp only [LStmt.aexec]
+    split
+    · rename_i hc
+      simp only [Bool.and_eq_true, decide_eq_true_eq] at hc
+      refine ⟨?_, by rw [henv]; exact hl, hobs⟩
+      rw [hbr, henv]
+      rcases hlast (by omega) with ⟨p, hp, hps⟩ | hps
+      · exact finishLabel_sound ⟨p, List.mem_append.mpr (.inl hp), hps⟩
+      · exact finishLabel_sound ⟨_, List.mem_append.mpr (.inr (by simp)), hps⟩
+    · refine ⟨?_, by rw [henv]; exact hl, hobs⟩
+      rw [hbr, henv]; exact hs
+  | fuel + 1, .forIn n body, cur, ρ, r, hi, hl, hw, hs, h => by
+    have hna : body.noAssign = true := by simpa [LStmt.inert] using hi
+    simp only [LStmt.exec] at h
+    obtain ⟨henv, hbr, hobs, _⟩ := LBlock.soundN nv d fuel n body cur ρ r hna hl hw hs h
+    simp only [LStmt.aexec]
+    refine ⟨?_, by rw [henv]; exact hl, hobs⟩
+    rw [hbr, henv]; exact hs
+theorem LElse.sound (nv : Nat) (d : Nat → Atom) : ∀ (fuel : Nat) (e : LElse) (cur : Pt) (ins : List Pt) (ρ : Env)
+    (r : Out), e.inert = true → ρ.length = nv → WfPt cur → (∀ p ∈ ins, WfPt p) → (∃ p ∈ ins, SoundPt ρ p) →
+    LElse.exec fuel ρ e = some r →
+    GoodE r.env (e.aexec nv d cur ins).1 (e.aexec nv d cur ins).2.2 r.broke ∧ r.env.length = nv ∧
+      ObsOK r.obs (e.aexec nv d cur ins).2.1
+  | 0, _, _, _, _, _, _, _, _, _, _, h => by simp [LElse.exec] at h
+  | fuel + 1, .none, cur, ins, ρ, r, _, hl, hw, hwi, hs, h => by
+    simp only [LElse.exec, Option.some.injEq] at h
+    subst h
+    simp only [LElse.aexec]
+    exact ⟨⟨finishLabel ins cur, by simp, finishLabel_sound hs⟩, hl, ObsOK.nil⟩
+  | fuel + 1, .els b, cur, ins, ρ, r, hi, hl, hw, hwi, hs, h => by
+    simp only [LElse.exec] at h
+    simp only [LElse.aexec]
+    obtain ⟨hg, hlen, hobs⟩ := LBlock.sound nv d fuel b _ ρ r (by simpa [LElse.inert] using hi) hl
+      (finishLabel_wf hwi hw) (finishLabel_sound (d := cur) hs) h
+    refine ⟨?_, hlen, hobs⟩
+    cases hb : r.broke
+    · rw [hb] at hg; exact ⟨_, by simp, hg⟩
+    · rw [hb] at hg; exact hg
+  | fuel + 1, .elif c thn rest, cur, ins, ρ, r, hi, hl, hw, hwi, hs, h => by
+    simp only [LElse.inert, Bool.and_eq_true] at hi
+    simp only [LElse.exec] at h
+    simp only [LElse.aexec]
+    have hpw := finishLabel_wf hwi hw
+    have hps := finishLabel_sound (d := cur) hs
+    have hew := edges_wf nv c _ hpw
+    have hes := edges_sound nv c _ ρ hl hps
+    cases hc : c.eval ρ
+    · simp only [hc, Bool.false_eq_true, ↓reduceIte] at h
+      obtain ⟨hg, hlen, hobs⟩ := LElse.sound nv d fuel rest cur _ ρ r hi.2 hl hw hew.2 (hes.2 hc) h
+      exact ⟨goodE_else hg, hlen, hobs.right⟩
+    · simp only [hc, ↓reduceIte] at h
+      obtain ⟨hg, hlen, hobs⟩ := LBlock.sound nv d fuel thn _ ρ r hi.1 hl (finishLabel_wf hew.1 hw)
+        (finishLabel_sound (d := cur) (hes.1 hc)) h
+      exact ⟨goodE_then hg, hlen, hobs.left⟩
+theorem LBlock.sound (nv : Nat) (d : Nat → Atom) : ∀ (fuel : Nat) (b : LBlock) (cur : Pt) (ρ : Env) (r : Out),
+    b.inert = true → ρ.length = nv → WfPt cur → SoundPt ρ cur → LBlock.exec fuel ρ b = some r →
+    Good r.env (b.aexec nv d cur).out (b.aexec nv d cur).brks r.broke ∧ r.env.length = nv ∧
+      ObsOK r.obs (b.aexec nv d cur).obs
+  | 0, _, _, _, _, _, _, _, _, h => by simp [LBlock.exec] at h
+  | fuel + 1, .nil, cur, ρ, r, _, hl, hw, hs, h => by
+    simp only [LBlock.exec, Option.some.injEq] at h
+    subst h
+    simp only [LBlock.aexec]
+    exact ⟨hs, hl, ObsOK.nil⟩
+  | fuel + 1, .cons s rest, cur, ρ, r, hi, hl, hw, hs, h => by
+    simp only [LBlock.inert, Bool.and_eq_true] at hi
+    simp only [LBlock.exec] at h
+    simp only [LBlock.aexec]
+    cases h1 : LStmt.exec fuel ρ s with
+    | none => simp [h1] at h
+    | some r1 =>
+      obtain ⟨hg1, hl1, ho1⟩ := LStmt.sound nv d fuel s cur ρ r1 hi.1 hl hw hs h1
+      simp only [h1] at h
+      split at h
+      · rename_i hbr
+        simp only [Option.some.injEq] at h
+        subst h
+        rw [hbr] at hg1 ⊢
+        exact ⟨Good.brk_left (out := (s.aexec nv d cur).out) hg1, hl1, ho1.left⟩
+      · rename_i hbr
+        have hbf : r1.broke = false := by simpa using hbr
+        rw [hbf] at hg1
+        cases h2 : LBlock.exec fuel r1.env rest with
+        | none => simp [h2] at h
+        | some r2 =>
+          simp only [h2, Option.some.injEq] at h
+          subst h
+          obtain ⟨hg2, hl2, ho2⟩ := LBlock.sound nv d fuel rest _ r1.env r2 hi.2 hl1
+            (LStmt.aexec_wf nv d s cur hw).1 hg1 h2
+          exact ⟨good_right hg2, hl2, ho1.append ho2⟩
+theorem LBlock.soundN (nv : Nat) (d : Nat → Atom) : ∀ (fuel n : Nat) (body : LBlock) (cur : Pt) (ρ : Env) (r : Out),
+    body.noAssign = true → ρ.length = nv → WfPt cur → SoundPt ρ cur → LBlock.execN fuel n ρ body = some r →
+    r.env = ρ ∧ r.broke = false ∧ ObsOK r.obs (body.aexec nv d cur).obs ∧
+      (0 < n → (∃ p ∈ (body.aexec nv d cur).brks, SoundPt ρ p) ∨ SoundPt ρ (body.aexec nv d cur).out)
+  | 0, _, _, _, _, _, _, _, _, _, h => by simp [LBlock.execN] at h
+  | fuel + 1, 0, body, cur, ρ, r, _, _, _, _, h => by
+    simp only [LBlock.execN, Option.some.injEq] at h
+    subst h
+    exact ⟨rfl, rfl, ObsOK.nil, fun h => absurd h (by omega)⟩
+  | fuel + 1, n + 1, body, cur, ρ, r, hna, hl, hw, hs, h => by
+    simp only [LBlock.execN] at h
+    cases h1 : LBlock.exec fuel ρ body with
+    | none => simp [h1] at h
+    | some r1 =>
+      have e1 := LBlock.exec_env fuel ρ body r1 hna h1
+      obtain ⟨hg1, _, ho1⟩ := LBlock.sound nv d fuel body cur ρ r1 (LBlock.noAssign_inert body hna) hl hw hs h1
+      simp only [h1] at h
+      split at h
+      · rename_i hbr
+        simp only [Option.some.injEq] at h
+        subst h
+        rw [hbr, e1] at hg1
+        exact ⟨e1, rfl, ho1, fun _ => .inl hg1⟩
+      · rename_i hbr
+        have hbf : r1.broke = false := by simpa using hbr
+        rw [hbf, e1] at hg1
+        cases h2 : LBlock.execN fuel n r1.env body with
+        | none => simp [h2] at h
+        | some r2 =>
+          simp only [h2, Option.some.injEq] at h
+          subst h
+          obtain ⟨e2, _, ho2, hlast⟩ := LBlock.soundN nv d fuel n body cur r1.env r2 hna (by rw [e1]; exact hl) hw
+            (by rw [e1]; exact hs) h2
+          refine ⟨by rw [e2, e1], rfl, ho1.append_same ho2, fun _ => ?_⟩
+          by_cases hn : 0 < n
+          · rw [e1] at hlast; exact hlast hn
+          · exact .inr hg1
+end
+
 end Flow
